@@ -276,6 +276,8 @@ def r4(ctx):
         idx = fs.params[1]
         allres = [t for (t, p) in conds if p and t.startswith("all(") and "is not None" in t and "self.acks" in t]
         allres += [t for (t, p) in conds if not p and t.startswith("any(") and "is None" in t and "self.acks" in t]
+        # (a list of None / True / False: `None not in self.acks` is the same test)
+        allres += [t for (t, p) in conds if (p and t == "None not in self.acks") or (not p and t == "None in self.acks")]
         # ... or a search loop that leaves the function at the first unresolved slot and dominates the call
         for L in walk_own(fs.node):
             if isinstance(L, ast.For) and not L.orelse and norm(L.iter) == "self.acks" and isinstance(L.target, ast.Name) and len(L.body) == 1 \
